@@ -45,7 +45,11 @@ OPEN_STATEMENTS = [
     'FermionOperator `*` and the pruning `+=` (exact regime) and are covered by the Spec oracle '
     '(get_majorana_operator(FermionOperator) is proved at full strength: get_majorana_operator_sound)',
     'get_quad_operator / get_boson_operator: correspondence + Spec oracle only (hbar in {1/2, 2, 8})',
-    'DOCIHamiltonian tensors vs qubit_operator: not modelled (no theorem, no correspondence)',
+    'DOCIHamiltonian: Model + correspondence + Spec oracle (documented qubit form, doubly-occupied block, arithmetic); '
+    'proved: get_tensors_from_integrals entries, T = t - t^(k<->l) (doci_two_body_tensor) and the kernel-checked witnesses '
+    'of findings F08c / F08d; not proved: the closed form of get_projected_integrals_from_doci (loops of assignments), the '
+    'block identity <D t|H(tensors/2)|D s> = <t|qubit_operator|s> for all hc, hr1, hr2, and the integrals round trip '
+    '(oracle only); real input arrays only (the source writes into float arrays)',
     'tensor_sub_hom holds only when the subtrahend keys are keys of the minuend (finding F08a: tensor_sub_spec states '
     'what the code computes in general, tensor_sub_counterexample is the kernel-checked witness)',
     'elementwise PolynomialTensor * PolynomialTensor has no operator-level meaning: correspondence only',
@@ -1423,6 +1427,26 @@ def halve_two_body(jpt):
     return {'n': jpt['n'], 'd': out}
 
 
+def settle_tensor_mismatch(orc, st, case, n, jT, mT):
+    """the tensors differ from the Model's (which mirrors finding F08c): silent when they denote the
+    operator the Model's tensors denote with the two-body part halved (a tree on which F08c was repaired)"""
+    got = {}
+
+    def mk(key):
+        def cb(den):
+            got[key] = den
+            if len(got) == 2:
+                def cb2(a):
+                    st.count('doci:tensor-mismatch-' + ('repaired' if a['eq'] else 'disagree'))
+                    if not a['eq']:
+                        st.disagree('DOCIHamiltonian.n_body_tensors', case, jT, mT)
+                orc.ask({'op': 'spec.eq', 'alg': 'fermion', 'n': 2 * n, 'd': 0, 'lhs': leaf(got['impl']),
+                         'rhs': leaf(got['model'])}, cb2)
+        return cb
+    orc.denote_pt(jT, mk('impl'))
+    orc.denote_pt(halve_two_body(mT), mk('model'))
+
+
 def stream_doci(ctx):
     of = ctx.of
     from openfermion.ops.representations.doci_hamiltonian import (get_doci_from_integrals,
@@ -1563,9 +1587,9 @@ def stream_doci(ctx):
                 ask('full', jT)
                 ask('half', halve_two_body(jT))
             elif not tensors_agree:
-                st.disagree('DOCIHamiltonian.n_body_tensors', case, jT, mT)
+                settle_tensor_mismatch(orc, st, case, n, jT, mT)
         elif not tensors_agree:
-            st.disagree('DOCIHamiltonian.n_body_tensors', case, jT, mT)
+            settle_tensor_mismatch(orc, st, case, n, jT, mT)
         # integrals round trip (symmetric arrays): get_doci_from_integrals inverts get_projected_integrals_from_doci
         if sym:
             try:
